@@ -167,9 +167,17 @@ pub fn c16_violations(prep: &Prepared, res: &ConcResult, stats: &mut BTreeMap<St
     let mut full_match = false;
     let mut seq_failed = false;
     let mut first_seq: Option<(String, Vec<(u32, String)>)> = None;
+    // which aspects of the final state differ from the closest sequential order
+    let mut best_diff: Option<Vec<&'static str>> = None;
     for order in &orders {
         match run_sequential(sc, order, &skip) {
-            Some((fin, rets)) => {
+            Some((fin, rets, secs)) => {
+                if let Some(cs) = &res.final_sections {
+                    let diff: Vec<&'static str> = (0..5).filter(|i| cs[*i] != secs[*i]).map(|i| SECTION_NAMES[i]).collect();
+                    if best_diff.as_ref().map(|b| diff.len() < b.len()).unwrap_or(true) {
+                        best_diff = Some(diff);
+                    }
+                }
                 if fin == conc_final {
                     state_match = true;
                     if rets == conc_rets {
@@ -206,7 +214,7 @@ pub fn c16_violations(prep: &Prepared, res: &ConcResult, stats: &mut BTreeMap<St
     if class == "return" {
         let mut best: Option<Vec<String>> = None;
         for order in &orders {
-            if let Some((fin, rets)) = run_sequential(sc, order, &skip) {
+            if let Some((fin, rets, _)) = run_sequential(sc, order, &skip) {
                 if fin == conc_final {
                     // the call whose result is unexplained, with the kind of result it got concurrently
                     let diff: Vec<String> = conc_rets
@@ -241,7 +249,7 @@ pub fn c16_violations(prep: &Prepared, res: &ConcResult, stats: &mut BTreeMap<St
         // the final state is explained by no order: the finding is identified by the kinds of calls that ran concurrently;
         // `after-timeout` marks runs in which a timed lock wait expired (a swallowed time-out can be the cause)
         let t = if res.counters.timeouts > 0 { "after-timeout:" } else { "" };
-        format!("{t}{kinds_s}")
+        format!("{t}{kinds_s}|differs:{}", best_diff.clone().unwrap_or_default().join("+"))
     };
     let _ = &rel;
     let mut detail = format!("clients: {}", sc.clients.iter().map(|c| c.iter().map(|(_, o)| o.brief()).collect::<Vec<_>>().join("; ")).collect::<Vec<_>>().join(" || "));
@@ -735,6 +743,7 @@ pub fn check_conc(prop: &str, thorough: bool) -> i32 {
             exit = 2;
         }
         let known = crate::check::load_known();
+        let baseline = load_baseline();
         let mut edges_total = 0;
         let mut edges_against = 0;
         let mut unconfirmed: Vec<String> = Vec::new();
@@ -745,14 +754,17 @@ pub fn check_conc(prop: &str, thorough: bool) -> i32 {
             }
             edges_total += 1;
             if edge_conforms(&v.sig) {
-                continue;
-            }
-            edges_against += 1;
-            if let Some(k) = crate::check::is_known(&known, "C15", &v.sig) {
-                if !listed_seen.contains(&k.sig) {
-                    listed_seen.push(k.sig.clone());
+                if baseline.iter().any(|b| *b == v.sig) {
+                    continue;
                 }
-                continue;
+            } else {
+                edges_against += 1;
+                if let Some(k) = crate::check::is_known(&known, "C15", &v.sig) {
+                    if !listed_seen.contains(&k.sig) {
+                        listed_seen.push(k.sig.clone());
+                    }
+                    continue;
+                }
             }
             match confirm_edge(&v.sig, v.first_seed, thorough) {
                 Some(path) => {
@@ -928,9 +940,26 @@ pub fn confirm_edge(edge: &str, seed: u64, thorough: bool) -> Option<PathBuf> {
     None
 }
 
+/// lock-order edges that follow the documented order and exist at the pinned commit (known/lock_order_baseline.txt).
+/// They are not defects, but a NEW one can close a cycle with a listed finding, so it is treated like any unlisted edge.
+pub fn load_baseline() -> Vec<String> {
+    let p = crate::check::verif_dir().join("known").join("lock_order_baseline.txt");
+    std::fs::read_to_string(p).map(|t| t.lines().map(|l| l.trim().to_string()).filter(|l| !l.is_empty() && !l.starts_with('#')).collect()).unwrap_or_default()
+}
+
+/// is this edge accounted for (a listed finding, or an order-following edge of the baseline)?
+pub fn edge_accounted(known: &[crate::check::Known], baseline: &[String], e: &str) -> bool {
+    if edge_conforms(e) {
+        baseline.iter().any(|b| b == e)
+    } else {
+        crate::check::is_known(known, "C15", e).is_some()
+    }
+}
+
 /// C15: a deadlock is known if every lock-order edge that takes part in it is a listed finding
 fn classify_edges(total: &WorkerOut, make_replay: &dyn Fn(&VRec) -> Option<PathBuf>) -> (i32, Vec<String>, usize) {
     let known = crate::check::load_known();
+    let baseline = load_baseline();
     let mut known_seen: BTreeMap<String, (u64, String)> = BTreeMap::new();
     let mut exit = 0;
     let mut n_viol = 0;
@@ -952,12 +981,9 @@ fn classify_edges(total: &WorkerOut, make_replay: &dyn Fn(&VRec) -> Option<PathB
             }
         }
         let edges: Vec<&str> = edges_owned.iter().map(|s| s.as_str()).collect();
-        // edges that follow the documented lock order are never the defect; a cycle needs at least one edge against it
-        let unknown: Vec<&str> = edges.iter().copied().filter(|e| !edge_conforms(e) && crate::check::is_known(&known, "C15", e).is_none()).collect();
-        if edges.iter().all(|e| edge_conforms(e)) {
-            // cannot happen for a real cycle; treat as a harness problem rather than a verdict
-            eprintln!("HARNESS: deadlock made of order-conforming edges only: {}", v.sig);
-        }
+        // an edge is accounted for if it is a listed finding or an order-following edge of the baseline
+        let unknown: Vec<&str> = edges.iter().copied().filter(|e| !edge_accounted(&known, &baseline, e)).collect();
+
         for e in &edges {
             if let Some(k) = crate::check::is_known(&known, "C15", e) {
                 let ent = known_seen.entry(k.sig.clone()).or_insert((0, k.what.clone()));
